@@ -110,7 +110,7 @@ class ColdInversePart(Part):
                 again = fwd2.anonymize(c)
             except Exception as e:
                 res.violation("exception:" + type(e).__name__ + "|" + cfg["fam"],
-                              "address %r: %r" % (a, e), dict(base, only=a))
+                              "address %r: %r" % (a, e), dict(base))
                 continue
             if b != a:
                 res.nt((json.dumps(base, sort_keys=True), a))
@@ -118,11 +118,11 @@ class ColdInversePart(Part):
             if back != a:
                 res.violation("cold-undo-wrong|" + cfg["fam"],
                               "cfg %r: anonymize(%d)=%d, cold deanonymize -> %d" % (base, a, b, back),
-                              dict(base, only=a))
+                              dict(base))
             if again != a:
                 res.violation("anonymize-of-undone-wrong|" + cfg["fam"],
                               "cfg %r: deanonymize(%d)=%d, anonymize -> %d" % (base, a, c, again),
-                              dict(base, only=a))
+                              dict(base))
         # brand-new instance per request for a slice (no memo at all on either side)
         for a in W[:: max(1, len(W) // 24)]:
             res.evals += 1
@@ -131,7 +131,7 @@ class ColdInversePart(Part):
             if back != a:
                 res.violation("cold-undo-wrong|" + cfg["fam"],
                               "cfg %r: fresh anonymize(%d)=%d, fresh deanonymize -> %d" % (
-                                  base, a, b, back), dict(base, only=a))
+                                  base, a, b, back), dict(base))
         if only is None:
             res.samples.append({"cfg": base, "addresses": len(W)})
         return res
@@ -182,7 +182,7 @@ class LinePart(Part):
                 back = m.anonymize_ip_addr(cold, out, True)
             except Exception as e:
                 res.violation("exception:" + type(e).__name__, "line %r: %r" % (line, e),
-                              dict(base, only=a))
+                              dict(base))
                 continue
             toks = out.split()
             u = toks[1] if len(toks) > 1 else ""
@@ -207,7 +207,7 @@ class LinePart(Part):
                 res.violation("line-undo-wrong|" + cfg["fam"],
                               "cfg %r: %r -> %r -> undo %r, expected %r" % (base, line, out, back,
                                                                            expect),
-                              dict(base, only=a))
+                              dict(base))
         res.count("mask_shaped_images", masked)
         if "only" not in cfg:
             res.samples.append({"cfg": base, "addresses": len(W), "mask_shaped_images": masked})
